@@ -408,7 +408,7 @@ func (e *MetaExecutor) CreateIterator(nodeID uint64, shardIDs []uint64, ctx cont
 		if _, err := DecodeTLVT(conn, &resp, e.timeout); err != nil {
 			return err
 		} else if resp.Err != nil {
-			return err
+			return resp.Err
 		}
 
 		return nil
@@ -467,7 +467,7 @@ func (e *MetaExecutor) ReadFilter(nodeID uint64, shardIDs []uint64, ctx context.
 		if _, err := DecodeTLVT(conn, &resp, e.timeout); err != nil {
 			return err
 		} else if resp.Err != nil {
-			return err
+			return resp.Err
 		}
 
 		return nil
@@ -500,7 +500,7 @@ func (e *MetaExecutor) ReadGroup(nodeID uint64, shardIDs []uint64, ctx context.C
 		if _, err := DecodeTLVT(conn, &resp, e.timeout); err != nil {
 			return err
 		} else if resp.Err != nil {
-			return err
+			return resp.Err
 		}
 
 		return nil
